@@ -21,7 +21,7 @@ TraceInit ==
   /\ cU = "open" /\ cUb = -1 /\ cUc = -1 /\ suB = -1 /\ suC = -1 /\ lost = FALSE /\ viol = ""
 
 \* the engine's names of the downstream peer's behaviour
-DnModeOf(s) == IF s \in {"silent", "early", "onchain"} THEN s ELSE "offchain"
+DnModeOf(s) == IF s \in {"silent", "early", "dust", "onchain"} THEN s ELSE "offchain"
 
 \* the constants the binary under test was built with are the ones this spec is instantiated with
 ConstsMatch(c) == /\ c.CCB = CCB /\ c.LGP = LGP /\ c.MBC = MBC /\ c.ARD = ARD /\ c.HFB = HFB
@@ -61,9 +61,17 @@ TxName(c) ==
     [] c.kind = "htlc_timeout" /\ c.node = 0 /\ c.chan = "up" -> "timeoutU"
     [] OTHER -> "other"
 
+\* B's confirmed commitment transaction of the downstream channel has no output of the HTLC's value (read
+\* from the transaction itself)
+NoHtlc(c) == c.kind = "commitment" /\ c.node = 1 /\ c.chan = "dn" /\ ~c.htlc
+
 TBlock ==
   /\ IsEvent("block") /\ R.h = h + 1
-  /\ Block({TxName(R.conf[k]) : k \in 1..Len(R.conf)})
+  /\ Block({TxName(R.conf[k]) : k \in 1..Len(R.conf)}
+           \cup {"noHtlcD" : k \in {j \in 1..Len(R.conf) : NoHtlc(R.conf[j])}})
+
+\* B stopped and restarted from its persisted state
+TRestart == IsEvent("restart") /\ R.h = h /\ R.node = 1 /\ Restart
 
 TClosed ==
   /\ IsEvent("closed")
@@ -74,7 +82,7 @@ TEnd == IsEvent("end") /\ R.h = h /\ EndRun(R.a_sent, R.c_paid, R.ab_open)
 TSkip == IsEvent("skip") /\ UNCHANGED vars
 
 TraceNext == TCase \/ TOffer \/ TShow \/ TForward \/ TClaim \/ TResolve \/ TBcast \/ TBlock \/ TClosed
-             \/ TEnd \/ TSkip
+             \/ TEnd \/ TSkip \/ TRestart
 
 TraceSpec == TraceInit /\ [][TraceNext]_tvars
 
